@@ -110,6 +110,8 @@ def brentsroot(f, bounds, tol=None, verbose=False, return_interval=False):
     if tol < D.epsilon(lower_bound.dtype):
         tol = D.epsilon(lower_bound.dtype)
     tol = D.ar_numpy.asarray(tol, like=lower_bound)
+    # bisection needs about one iteration per bit of the answer: scale the iteration cap with the width of the type
+    maxiter = 64 * max(1, int(D.ar_numpy.finfo(lower_bound.dtype).bits) // 64)
     a, b = D.ar_numpy.asarray(lower_bound), D.ar_numpy.asarray(upper_bound)
     fa = f(a)
     fb = f(b)
@@ -164,7 +166,7 @@ def brentsroot(f, bounds, tol=None, verbose=False, return_interval=False):
             a, b = b, a
             fa, fb = fb, fa
         conv = (fb == 0 or fs == 0 or D.ar_numpy.abs(b - a) < tol)
-        if numiter >= 64:
+        if numiter >= maxiter:
             break
     if verbose:
         with numpy.printoptions(precision=17, linewidth=200):
@@ -217,6 +219,8 @@ def brentsrootvec(f, bounds, tol=None, verbose=False, return_interval=False, acc
     if tol < D.epsilon(lower_bound.dtype):
         tol = D.epsilon(lower_bound.dtype)
     tol = D.ar_numpy.asarray(tol, like=lower_bound)
+    # bisection needs about one iteration per bit of the answer: scale the iteration cap with the width of the type
+    maxiter = 64 * max(1, int(D.ar_numpy.finfo(lower_bound.dtype).bits) // 64)
     a, b = D.ar_numpy.asarray(lower_bound, like=tol), D.ar_numpy.asarray(upper_bound, like=tol)
     
     if isinstance(f, list):
@@ -310,7 +314,7 @@ def brentsrootvec(f, bounds, tol=None, verbose=False, return_interval=False, acc
         fa[mask], fb[mask] = fb[mask], fa[mask]
 
         conv = D.ar_numpy.logical_not(D.ar_numpy.logical_or(D.ar_numpy.logical_or(fb == 0, fs == 0), D.ar_numpy.abs(b - a) < tol))
-        conv = conv & (numiter <= 64)
+        conv = conv & (numiter <= maxiter)
         not_conv = D.ar_numpy.logical_not(conv)
         true_conv = (D.ar_numpy.abs(fb) <= tol) | ((fa * fb <= 0) & (D.ar_numpy.abs(b - a) <= tol * (1 + D.ar_numpy.abs(b))))
 
